@@ -55,14 +55,13 @@ def parse_newick(string):
             # Remove branch definition from string
             string = string[:start] + string[end + 1:]
 
-    def collect(d):
+    # Replace every branch entry by (definition of the branch, height). Each
+    # definition is visited once and shared by reference, so no recursion is
+    # needed (deep trees would otherwise hit the recursion limit).
+    for d in list(items.values()):
         for item in d:
             if item in items:
-                collect(items[item])
                 d[item] = (items[item], d[item])
-        return
-
-    collect(items['trunk'])
 
     return items['trunk']
 
@@ -86,29 +85,32 @@ def parse_dendrogram(newick, data, index_map, params, wcs=None):
         flux_by_structure, indices_by_structure = _slow_reader(d.index_map, data)
 
     def _construct_tree(repr):
-        structures = []
-        for idx in repr:
-            idx = int(idx)
+        # List the nodes parents-first without recursion (deep trees would
+        # otherwise hit the recursion limit) ...
+        nodes = []  # (idx, idx of the children in order)
+        todo = [repr]
+        while todo:
+            sub_repr = todo.pop()
+            for idx in sub_repr:
+                if type(sub_repr[idx]) is tuple:
+                    sub_structures_repr = sub_repr[idx][0]  # Parsed representation of sub structures
+                    nodes.append((int(idx), [int(i) for i in sub_structures_repr]))
+                    todo.append(sub_structures_repr)
+                else:
+                    nodes.append((int(idx), None))
+
+        # ... then build the structures children-first
+        for idx, children in reversed(nodes):
             structure_indices = indices_by_structure[idx]
             f = flux_by_structure[idx]
-            if type(repr[idx]) is tuple:
-                sub_structures_repr = repr[idx][0]  # Parsed representation of sub structures
-                sub_structures = _construct_tree(sub_structures_repr)
-                for i in sub_structures:
-                    d._structures_dict[i.idx] = i
-                branch = Structure(structure_indices, f, children=sub_structures, idx=idx, dendrogram=d)
-                # Correct merge levels - complicated because of the
-                # order in which we are building the tree.
-                # What we do is look at the heights of this branch's
-                # 1st child as stored in the newick representation, and then
-                # work backwards to compute the merge level of this branch
-                d._structures_dict[idx] = branch
-                structures.append(branch)
+            if children is not None:
+                sub_structures = [d._structures_dict[i] for i in children]
+                structure = Structure(structure_indices, f, children=sub_structures, idx=idx, dendrogram=d)
             else:
-                leaf = Structure(structure_indices, f, idx=idx, dendrogram=d)
-                structures.append(leaf)
-                d._structures_dict[idx] = leaf
-        return structures
+                structure = Structure(structure_indices, f, idx=idx, dendrogram=d)
+            d._structures_dict[idx] = structure
+
+        return [d._structures_dict[int(idx)] for idx in repr]
 
     log.debug('Parsing newick and constructing tree...')
     d.trunk = _construct_tree(parse_newick(newick))
